@@ -179,14 +179,20 @@ def _hyp_worker(args):
         strat = arm.strategy(tier)
         last = {}
 
+        shrink_cap = float(os.environ.get("VERIF_SHRINK_CAP_S", "25" if tier == "quick" else "120"))
+
         def body(case):
             if time.time() > deadline:
                 stats.extra["skipped_after_deadline"] += 1
+                return
+            if last and time.time() - last["t0"] > shrink_cap and case != last["case"]:
+                # shrinking budget used up: let the shrinker finish with the best example so far
                 return
             stats.evaluations += 1
             try:
                 _check_one(arm, case, stats, known_sigs)
             except Violation as v:
+                last.setdefault("t0", time.time())
                 last["case"] = case
                 last["v"] = v
                 raise
